@@ -42,20 +42,68 @@ def _line(code, line):
     return _mon.DISABLE
 
 
+# -- fine mode: the points inside a line at which CPython 3.12 can really hand over the GIL ------
+# The eval breaker is honoured at function entry (RESUME), on backward jumps and after CALL
+# instructions.  Entry and backward jumps already produce LINE events; what is missing is "a call
+# made from this line has just returned".  PY_RETURN in sigtools code (the callee is about to hand
+# its result to a sigtools caller) and C_RETURN / C_RAISE in sigtools code (a builtin, a class or
+# any non-Python callable called from a sigtools line has come back) add exactly those.
+
+def _py_return(code, offset, retval):
+    s = _active[0]
+    if not faults.is_sigtools_file(code.co_filename):
+        return _mon.DISABLE
+    if s is None or not s.fine:
+        return None
+    return s._on_line(code, 'ret@{0}'.format(offset))
+
+
+def _call(code, offset, callable_, arg0):
+    # needed only because C_RETURN/C_RAISE are delivered for locations whose CALL event is on
+    if not faults.is_sigtools_file(code.co_filename):
+        return _mon.DISABLE
+    return None
+
+
+def _c_return(code, offset, callable_, arg0):
+    s = _active[0]
+    if s is None or not s.fine or not faults.is_sigtools_file(code.co_filename):
+        return None
+    return s._on_line(code, 'after-call@{0}'.format(offset))
+
+
+_FINE_EVENTS = None
+
+
 def install():
+    global _FINE_EVENTS
     if _installed[0]:
         return
+    ev = _mon.events
+    _FINE_EVENTS = ev.PY_RETURN | ev.CALL
     _mon.use_tool_id(TOOL_ID, 'verif-sched')
-    _mon.register_callback(TOOL_ID, _mon.events.LINE, _line)
-    _mon.set_events(TOOL_ID, _mon.events.LINE)
+    _mon.register_callback(TOOL_ID, ev.LINE, _line)
+    _mon.register_callback(TOOL_ID, ev.PY_RETURN, _py_return)
+    _mon.register_callback(TOOL_ID, ev.CALL, _call)
+    _mon.register_callback(TOOL_ID, ev.C_RETURN, _c_return)
+    _mon.register_callback(TOOL_ID, ev.C_RAISE, _c_return)
+    _mon.set_events(TOOL_ID, ev.LINE)
     _installed[0] = True
+
+
+def set_fine(on):
+    """Fine events are armed only while a fine run executes (they cost ~2x)."""
+    ev = _mon.events
+    _mon.set_events(TOOL_ID, ev.LINE | (_FINE_EVENTS if on else 0))
 
 
 def uninstall():
     if not _installed[0]:
         return
     _mon.set_events(TOOL_ID, 0)
-    _mon.register_callback(TOOL_ID, _mon.events.LINE, None)
+    for e in (_mon.events.LINE, _mon.events.PY_RETURN, _mon.events.CALL, _mon.events.C_RETURN,
+              _mon.events.C_RAISE):
+        _mon.register_callback(TOOL_ID, e, None)
     _mon.free_tool_id(TOOL_ID)
     _installed[0] = False
 
@@ -79,12 +127,13 @@ class Policy(object):
 
 
 class Scheduler(object):
-    def __init__(self, programs, policy, step_cap=400000, inspect_lines=False, on_switch=None):
+    def __init__(self, programs, policy, step_cap=400000, inspect_lines=False, on_switch=None, fine=False):
         self.programs = programs
         self.n = len(programs)
         self.policy = policy
         self.step_cap = step_cap
         self.inspect_lines = inspect_lines
+        self.fine = fine
         self.on_switch = on_switch
         self.locks = [_thread.allocate_lock() for _ in range(self.n)]
         for l in self.locks:
@@ -148,6 +197,8 @@ class Scheduler(object):
         install()
         threads = [threading.Thread(target=self._body, args=(i,), daemon=True) for i in range(self.n)]
         _active[0] = self
+        if self.fine:
+            set_fine(True)
         try:
             for t in threads:
                 t.start()
@@ -168,6 +219,8 @@ class Scheduler(object):
                 t.join(timeout=10)
         finally:
             _active[0] = None
+            if self.fine:
+                set_fine(False)
         return self
 
 
